@@ -18,42 +18,61 @@ const (
 	c19evClosed  = "ev:closed" // the callback took a select case receiving from the syncer's done channel
 )
 
-// c19runMutates reports a statement of run (closures included) that writes into a
-// snapshot-typed map in place.
+// c19runMutates reports a statement of run, its closures or the same-package functions below it
+// (the pull and the reads below the pull excepted) that writes into a snapshot-typed map in place.
 func c19runMutates(r *c19run) ast.Node {
-	f := r.f
 	var at ast.Node
-	isSnap := func(e ast.Expr) bool {
-		t := f.Info.TypeOf(e)
-		return t != nil && types.Identical(t, r.snapT)
+	// the pull and the reads below it fill maps they have just created: not a delivered snapshot
+	below := map[*ast.BlockStmt]bool{}
+	for _, ps := range r.pulls {
+		if fo, ok := ps.f.Callee(ps.call).(*types.Func); ok {
+			if pfd := declOf(ps.f.Pkg, fo); pfd != nil {
+				for _, g := range reach(flow.NewFunc(ps.f.Pkg, pfd), 3) {
+					below[g.Body] = true
+				}
+			}
+		}
 	}
-	ast.Inspect(f.Body, func(n ast.Node) bool {
-		switch s := n.(type) {
-		case *ast.AssignStmt:
-			for _, l := range s.Lhs {
-				if ix, ok := ast.Unparen(l).(*ast.IndexExpr); ok && isSnap(ix.X) {
+	for _, f := range r.funcs {
+		if below[f.Body] {
+			continue
+		}
+		isSnap := func(e ast.Expr) bool {
+			t := f.Info.TypeOf(e)
+			return t != nil && types.Identical(t, r.snapT)
+		}
+		ast.Inspect(f.Body, func(n ast.Node) bool {
+			switch s := n.(type) {
+			case *ast.AssignStmt:
+				for _, l := range s.Lhs {
+					if ix, ok := ast.Unparen(l).(*ast.IndexExpr); ok && isSnap(ix.X) {
+						at = s
+					}
+				}
+			case *ast.CallExpr:
+				if b, ok := f.Callee(s).(*types.Builtin); ok && (b.Name() == "delete" || b.Name() == "clear") && len(s.Args) > 0 && isSnap(s.Args[0]) {
 					at = s
 				}
 			}
-		case *ast.CallExpr:
-			if b, ok := f.Callee(s).(*types.Builtin); ok && (b.Name() == "delete" || b.Name() == "clear") && len(s.Args) > 0 && isSnap(s.Args[0]) {
-				at = s
-			}
-		}
-		return true
-	})
+			return true
+		})
+	}
 	return at
 }
 
 func c19Adapters(c *core.Ctx, r *c19run) {
-	runFull := "(*" + c19pkg + ".syncer).run"
 	n := 0
 	eachFunc(c, func(pkg *packages.Package, fd *ast.FuncDecl) {
 		if relPkg(pkg.PkgPath) != c19pkg || fd == r.f.Node {
 			return
 		}
 		f := flow.NewFunc(pkg, fd)
-		rc := callsTo(f, fd.Body, true, runFull)
+		var rc []*ast.CallExpr
+		for _, call := range calls(fd.Body, true) {
+			if r.runObj != nil && f.Callee(call) == types.Object(r.runObj) {
+				rc = append(rc, call)
+			}
+		}
 		if len(rc) == 0 {
 			return
 		}
@@ -376,7 +395,7 @@ func c19Adapter(c *core.Ctx, r *c19run, pkg *packages.Package, fd *ast.FuncDecl,
 			return true
 		}
 		as := n.(*ast.AssignStmt)
-		if len(as.Lhs) != len(as.Rhs) || vObj == nil {
+		if len(as.Lhs) != len(as.Rhs) {
 			valOK, badStore = false, n
 			return true
 		}
@@ -386,8 +405,15 @@ func c19Adapter(c *core.Ctx, r *c19run, pkg *packages.Package, fd *ast.FuncDecl,
 			}
 			uses := false
 			ast.Inspect(as.Rhs[i], func(x ast.Node) bool {
-				if id, ok := x.(*ast.Ident); ok && lf.Info.Uses[id] == vObj {
-					uses = true
+				switch t := x.(type) {
+				case *ast.Ident:
+					if vObj != nil && lf.Info.Uses[t] == vObj {
+						uses = true
+					}
+				case *ast.IndexExpr: // data[k] with k the loop's key
+					if isData(t.X) && c19obj(lf, t.Index) != nil && c19obj(lf, t.Index) == c19obj(lf, L.Key) {
+						uses = true
+					}
 				}
 				return true
 			})
@@ -398,7 +424,7 @@ func c19Adapter(c *core.Ctx, r *c19run, pkg *packages.Package, fd *ast.FuncDecl,
 		return true
 	})
 	c.Check(valOK, "R-C19-5", cons+"|copied value is the snapshot's value", pos(c, L),
-		"the value stored under each key is computed from the loop's value variable",
+		"the value stored under each key is computed from the snapshot's entry for that key (the loop's value variable or data[key])",
 		"the value stored under a key is not derived from the snapshot's entry for that key ("+pos(c, badStore)+")")
 	// send after the loop
 	var early *flow.State
